@@ -1373,7 +1373,7 @@ package sarama
 //@   ensures len(r) <= 2147483647
 //@   modifies nothing
 
-//@ func topicProducer.partitionMessage#lit0() props C17
+//@ func topicProducer.partitionMessage#lit0() props C17 C04
 //@   callsite Partitions: requires[all_partitions_iff_consistent] requiresConsistency
 //@   callsite WritablePartitions: requires[writable_otherwise] !requiresConsistency
 //@   callsite Partitions: requires[all_partitions_only_for_messages_that_need_them] ite(implements(tp.partitioner, DynamicConsistencyPartitioner), msgConsistency(tp.partitioner, msg), staticConsistency(tp.partitioner))
@@ -1533,6 +1533,12 @@ package sarama
 
 // (C11) the aborted-transaction index is consumed in FirstOffset order: getAbortedTransactions sorts it.
 // sorted(at) is established by sort.Slice with the FirstOffset comparison (T-stdlib: sort.Slice sorts by `less`).
+// the order handed to sort.Slice is ascending by first offset (the assumed effect of sort.Slice below is "sorted by
+// the order it is given", T-stdlib)
+//@ func FetchResponseBlock.getAbortedTransactions#lit0(i, j) props C11
+//@   returns r
+//@   ensures[orders_by_first_offset] r == (at[i].FirstOffset < at[j].FirstOffset)
+//@   nosafety
 //@ func (b *FetchResponseBlock) getAbortedTransactions() props C11
 //@   returns r
 //@   callsite Slice: modifies maps
